@@ -58,7 +58,7 @@ FINISH = {"level": "proof", "assumptions": [
     "theorems quantify over reqAcks cfg < 255 (≤ 253 followers): db.ackCount is a uint8 and 0xff means 'not pending'",
 ]}
 
-ACK_FILES = ["zz_verif_ack_test.go", "zz_verif_engine_test.go", "zz_verif_engine_monitor_test.go"]
+ACK_FILES = ["zz_verif_ack_test.go", "zz_verif_ackflush_test.go", "zz_verif_engine_test.go", "zz_verif_engine_monitor_test.go"]
 CORPUS = os.path.join(vlib.VERIF, "corpus", "ack.ops")
 FIXED = os.path.join(vlib.VERIF, "corpus", "ack_fixed.ops")      # reproducers of repaired defects: must pass
 FIXED_STILL_OPEN = ("C11:succed-before-aofed:reentrant",)        # fires on some of them by design of the minimal repair
@@ -158,6 +158,18 @@ def run(ctx):
             ctx.cov["corpus_lines_replayed"] = sum(1 for l in open(CORPUS) if l.startswith("ack "))
         first = False
         run_ack(ctx, exe, n, sd, extra)
+    # the journal half: what the REAL AofFile.WriteLock / Flush / Close report for require-ack records when the record file or the value
+    # file fails at write time (mode `ackflush`, monitors only)
+    outdir = ctx.run_harness(exe, "ackflush", 80 if ctx.tier == "quick" else 1500, timeout=300)
+    if outdir:
+        read_monitor(ctx, outdir, "ackflush", ["C11:"])
+        sp = os.path.join(outdir, "ackflush.stats")
+        if os.path.exists(sp):
+            dist = ctx.cov.setdefault("distribution", {})
+            for k, v in json.load(open(sp)).items():
+                dist[k] = dist.get(k, 0) + v
+                if k.startswith("ackflush-case"):
+                    ctx.cov["evaluations"] += v
     ctx.cov["rule"] = ("seeded histories: 1-3 keys, 2-4 connections, followers 0..2 x ack mode all / majority; LOCK with / without require-ack, "
                        "with / without SET / INCR / APPEND frame, Timeout 0..9, Expried 1..20, Count 0..3, Rcount 0..2; UNLOCK (12% unlock-first); "
                        "ticks; journal delivery in push order; own-flush report once per id (85% ok); follower answers (85% ok, once per follower "
